@@ -430,9 +430,11 @@ static void gen_cfg(sk_rng* r, int alloc_mode)
 	sk_bytes(r, c->pwd[0], 40);
 	memcpy(c->pwd[1], c->pwd[0], 40);
 	/* inconsistent configuration of the two sides */
-	c->mismatch = (!alloc_mode && sk_chance(r, 1, 8)) ? (int)(1 + sk_below(r, 5)) : 0;
-	if (c->mismatch == 5 && c->proto == P_BPACE)
-		c->mismatch = 2; /* BPACE has no certificates */
+	c->mismatch = (!alloc_mode && sk_chance(r, 1, 8)) ? (int)(1 + sk_below(r, 6)) : 0;
+	if (c->mismatch >= 5 && c->proto == P_BPACE)
+		c->mismatch = 2; /* BPACE has no certificates or private keys */
+	if (c->mismatch == 6 && c->proto == P_BAUTH && !c->kcb)
+		c->mismatch = 2; /* without kcb the token is not authenticated: its private key is never used */
 	if (c->mismatch == 4 && (c->proto != P_BMQV || c->cert_pref[0] == 0))
 		c->mismatch = 2; /* certificate data enters the key derivation in BMQV only */
 	if (c->mismatch == 3 && c->proto != P_BMQV && c->proto != P_BAUTH)
@@ -498,6 +500,12 @@ static void setup_party(int s, uint64_t tape_seed, int apply_mismatch)
 				other_cert[sk_below(&p->tape.r, (uint32_t)c->cert_pref[0])] ^= 1;
 				p->peer.data = other_cert;
 			}
+			break;
+		case 6:
+			/* B's private key does not match B's certificate (in BAUTH: a token that cannot
+			   prove possession of the certified key) */
+			if (s == 1 && c->proto != P_BPACE)
+				p->priv = c->priv[0];
 			break;
 		case 5:
 			/* a certificate the validation callback rejects (too short to hold a public key):
